@@ -4,7 +4,7 @@ From Coq Require Import List ZArith Bool.
 From SDC Require Import Invocation.Model.
 Import ListNotations.
 Definition sco_queue_cap : nat := 10%nat.
-Definition recent_cap : nat := 5%nat.
+Definition recent_cap : nat := 50%nat.
 Definition direct_resp_table : list (istate * istate) :=
   [(Wait, Wait); (Start, Start); (Cnclld, Cnclld); (CnclldMan, CnclldMan); (Fin, Fin); (FinMod, FinMod); (Fail, Fail)].
 Definition direct_raise_resp : istate := Fail.
